@@ -16,14 +16,10 @@ Print Assumptions C01_varint_roundtrip.
 
 (* len(AppendVarint(v)) = SizeVarint(v), the closed form (9*bitlen+64)/64 *)
 Theorem C01_varint_size :
-  forall v, v < 2^64 -> N.of_nat (length (enc_varint v)) = size_varint v.
-Proof. exact enc_varint_length. Qed.
+  (forall v, v < 2^64 -> N.of_nat (length (enc_varint v)) = size_varint v) /\
+  (forall v, v < 2^64 -> N.of_nat (length (enc_varint v)) = N.max 1 ((N.size v + 6) / 7)).
+Proof. exact (conj enc_varint_length enc_varint_length_bits). Qed.
 Print Assumptions C01_varint_size.
-
-Theorem C01_varint_size_bits :
-  forall v, v < 2^64 -> N.of_nat (length (enc_varint v)) = N.max 1 ((N.size v + 6) / 7).
-Proof. exact enc_varint_length_bits. Qed.
-Print Assumptions C01_varint_size_bits.
 
 (* minimality: whatever byte string the decoder maps to v is at least as long *)
 Theorem C01_varint_minimal :
@@ -32,70 +28,44 @@ Proof. exact varint_minimal. Qed.
 Print Assumptions C01_varint_minimal.
 
 (* ---------------- fixed32 / fixed64 ---------------- *)
-Theorem C01_fixed32_roundtrip :
-  forall v rest, v < 2^32 ->
-    dec_fixed32 (enc_fixed32 v ++ rest) = Ok (v, rest) /\ length (enc_fixed32 v) = 4%nat.
-Proof. exact fixed32_roundtrip. Qed.
-Print Assumptions C01_fixed32_roundtrip.
-
-Theorem C01_fixed64_roundtrip :
-  forall v rest, v < 2^64 ->
-    dec_fixed64 (enc_fixed64 v ++ rest) = Ok (v, rest) /\ length (enc_fixed64 v) = 8%nat.
-Proof. exact fixed64_roundtrip. Qed.
-Print Assumptions C01_fixed64_roundtrip.
+Theorem C01_fixed_roundtrip :
+  (forall v rest, v < 2^32 ->
+    dec_fixed32 (enc_fixed32 v ++ rest) = Ok (v, rest) /\ length (enc_fixed32 v) = 4%nat) /\
+  (forall v rest, v < 2^64 ->
+    dec_fixed64 (enc_fixed64 v ++ rest) = Ok (v, rest) /\ length (enc_fixed64 v) = 8%nat).
+Proof. exact (conj fixed32_roundtrip fixed64_roundtrip). Qed.
+Print Assumptions C01_fixed_roundtrip.
 
 (* the decoders are also injective: the consumed bytes are the encoding of the result *)
-Theorem C01_fixed32_decode_encode :
-  forall bs v r, dec_fixed32 bs = Ok (v, r) -> bs = enc_fixed32 v ++ r /\ v < 2^32.
-Proof. exact (fixed_decode_encode 4). Qed.
-Print Assumptions C01_fixed32_decode_encode.
-
-Theorem C01_fixed64_decode_encode :
-  forall bs v r, dec_fixed64 bs = Ok (v, r) -> bs = enc_fixed64 v ++ r /\ v < 2^64.
-Proof. exact (fixed_decode_encode 8). Qed.
-Print Assumptions C01_fixed64_decode_encode.
+Theorem C01_fixed_decode_encode :
+  (forall bs v r, dec_fixed32 bs = Ok (v, r) -> bs = enc_fixed32 v ++ r /\ v < 2^32) /\
+  (forall bs v r, dec_fixed64 bs = Ok (v, r) -> bs = enc_fixed64 v ++ r /\ v < 2^64).
+Proof. exact (conj ((fixed_decode_encode 4)) ((fixed_decode_encode 8))). Qed.
+Print Assumptions C01_fixed_decode_encode.
 
 (* ---------------- zig-zag: a bijection int64 <-> uint64 ---------------- *)
-Theorem C01_zigzag_decode_encode : forall x, zz_dec (zz_enc x) = x.
-Proof. exact zz_dec_enc. Qed.
-Print Assumptions C01_zigzag_decode_encode.
-
-Theorem C01_zigzag_encode_decode : forall n, zz_enc (zz_dec n) = n.
-Proof. exact zz_enc_dec. Qed.
-Print Assumptions C01_zigzag_encode_decode.
-
-Theorem C01_zigzag_encode_range : forall x, (- 2^63 <= x < 2^63)%Z -> zz_enc x < 2^64.
-Proof. exact zz_enc_range. Qed.
-Print Assumptions C01_zigzag_encode_range.
-
-Theorem C01_zigzag_decode_range : forall n, n < 2^64 -> (- 2^63 <= zz_dec n < 2^63)%Z.
-Proof. exact zz_dec_range. Qed.
-Print Assumptions C01_zigzag_decode_range.
+Theorem C01_zigzag_bijective :
+  (forall x, zz_dec (zz_enc x) = x) /\
+  (forall n, zz_enc (zz_dec n) = n) /\
+  (forall x, (- 2^63 <= x < 2^63)%Z -> zz_enc x < 2^64) /\
+  (forall n, n < 2^64 -> (- 2^63 <= zz_dec n < 2^63)%Z).
+Proof. exact (conj zz_dec_enc (conj zz_enc_dec (conj zz_enc_range zz_dec_range))). Qed.
+Print Assumptions C01_zigzag_bijective.
 
 (* ---------------- bool ---------------- *)
-Theorem C01_bool_roundtrip : forall b, dec_bool (enc_bool b) = b.
-Proof. exact bool_roundtrip. Qed.
-Print Assumptions C01_bool_roundtrip.
-
-Theorem C01_bool_bijective_01 : forall n, n < 2 -> enc_bool (dec_bool n) = n.
-Proof. exact bool_enc_dec. Qed.
-Print Assumptions C01_bool_bijective_01.
+Theorem C01_bool_bijective :
+  (forall b, dec_bool (enc_bool b) = b) /\
+  (forall n, n < 2 -> enc_bool (dec_bool n) = n).
+Proof. exact (conj bool_roundtrip bool_enc_dec). Qed.
+Print Assumptions C01_bool_bijective.
 
 (* ---------------- tags ---------------- *)
-Theorem C01_tag_decode_encode :
-  forall num typ, num <= 2147483647 -> typ < 8 -> decode_tag (encode_tag num typ) = Some (num, typ).
-Proof. exact tag_decode_encode. Qed.
-Print Assumptions C01_tag_decode_encode.
-
-Theorem C01_tag_injective :
-  forall n1 t1 n2 t2, t1 < 8 -> t2 < 8 -> encode_tag n1 t1 = encode_tag n2 t2 -> n1 = n2 /\ t1 = t2.
-Proof. exact tag_encode_injective. Qed.
-Print Assumptions C01_tag_injective.
-
-Theorem C01_tag_encode_decode :
-  forall x num typ, decode_tag x = Some (num, typ) -> encode_tag num typ = x /\ typ < 8 /\ num <= 2147483647.
-Proof. exact tag_encode_decode. Qed.
-Print Assumptions C01_tag_encode_decode.
+Theorem C01_tag_bijective :
+  (forall num typ, num <= 2147483647 -> typ < 8 -> decode_tag (encode_tag num typ) = Some (num, typ)) /\
+  (forall n1 t1 n2 t2, t1 < 8 -> t2 < 8 -> encode_tag n1 t1 = encode_tag n2 t2 -> n1 = n2 /\ t1 = t2) /\
+  (forall x num typ, decode_tag x = Some (num, typ) -> encode_tag num typ = x /\ typ < 8 /\ num <= 2147483647).
+Proof. exact (conj tag_decode_encode (conj tag_encode_injective tag_encode_decode)). Qed.
+Print Assumptions C01_tag_bijective.
 
 (* through bytes, for every number the code supports (1 .. 2^31-1, which
    includes the documented range 1 .. 2^29-1) *)
@@ -134,20 +104,12 @@ Print Assumptions C01_parse_render.
 
 (* ---------------- Tier T: the Go code of wire.go, regenerated on every run,
    equals the model (go_eq_spec) ---------------- *)
-Theorem C01_go_AppendVarint :
-  forall b v, v < 2^64 -> go_AppendVarint (zbytes b) (Z.of_N v) = zbytes (b ++ enc_varint v).
-Proof. exact go_AppendVarint_spec. Qed.
-Print Assumptions C01_go_AppendVarint.
-
-Theorem C01_go_ConsumeVarint :
-  forall bs, go_ConsumeVarint (zbytes bs) = Val (zres_vn (dec_varint bs) bs).
-Proof. exact go_ConsumeVarint_spec. Qed.
-Print Assumptions C01_go_ConsumeVarint.
-
-Theorem C01_go_SizeVarint :
-  forall v, v < 2^64 -> go_SizeVarint (Z.of_N v) = Z.of_N (size_varint v).
-Proof. exact go_SizeVarint_spec. Qed.
-Print Assumptions C01_go_SizeVarint.
+Theorem C01_go_Varint :
+  (forall b v, v < 2^64 -> go_AppendVarint (zbytes b) (Z.of_N v) = zbytes (b ++ enc_varint v)) /\
+  (forall bs, go_ConsumeVarint (zbytes bs) = Val (zres_vn (dec_varint bs) bs)) /\
+  (forall v, v < 2^64 -> go_SizeVarint (Z.of_N v) = Z.of_N (size_varint v)).
+Proof. exact (conj go_AppendVarint_spec (conj go_ConsumeVarint_spec go_SizeVarint_spec)). Qed.
+Print Assumptions C01_go_Varint.
 
 Theorem C01_go_Fixed :
   (forall b v, v < 2^32 -> go_AppendFixed32 (zbytes b) (Z.of_N v) = zbytes (b ++ enc_fixed32 v)) /\
@@ -158,17 +120,13 @@ Theorem C01_go_Fixed :
 Proof. exact go_Fixed_spec. Qed.
 Print Assumptions C01_go_Fixed.
 
-Theorem C01_go_ZigZag :
-  (forall x, (- 2^63 <= x < 2^63)%Z -> go_EncodeZigZag x = Z.of_N (zz_enc x)) /\
-  (forall n, n < 2^64 -> go_DecodeZigZag (Z.of_N n) = zz_dec n).
-Proof. exact go_ZigZag_spec. Qed.
-Print Assumptions C01_go_ZigZag.
-
-Theorem C01_go_Bool :
-  (forall b, go_EncodeBool b = Z.of_N (enc_bool b)) /\
-  (forall n, go_DecodeBool (Z.of_N n) = dec_bool n).
-Proof. exact go_Bool_spec. Qed.
-Print Assumptions C01_go_Bool.
+Theorem C01_go_ZigZag_Bool :
+  ((forall x, (- 2^63 <= x < 2^63)%Z -> go_EncodeZigZag x = Z.of_N (zz_enc x)) /\
+  (forall n, n < 2^64 -> go_DecodeZigZag (Z.of_N n) = zz_dec n)) /\
+  ((forall b, go_EncodeBool b = Z.of_N (enc_bool b)) /\
+  (forall n, go_DecodeBool (Z.of_N n) = dec_bool n)).
+Proof. exact (conj go_ZigZag_spec go_Bool_spec). Qed.
+Print Assumptions C01_go_ZigZag_Bool.
 
 Theorem C01_go_Tag :
   (forall num typ, num <= 2147483647 -> typ < 8 ->
@@ -203,17 +161,17 @@ Print Assumptions C01_go_Bytes.
 Example C01_ex_varint : dec_varint (enc_varint 300 ++ [xff]) = Ok (300, [xff]) /\ enc_varint 300 = [xac; x02].
 Proof. split; [apply C01_varint_roundtrip|]; vm_compute; reflexivity. Qed.
 Example C01_ex_varint_max : N.of_nat (length (enc_varint 18446744073709551615)) = 10.
-Proof. rewrite C01_varint_size by (vm_compute; reflexivity). vm_compute. reflexivity. Qed.
+Proof. rewrite (proj1 C01_varint_size) by (vm_compute; reflexivity). vm_compute. reflexivity. Qed.
 Example C01_ex_minimal : (length (enc_varint 1) <= length [x81; x80; x00; xff] - length [xff])%nat.
 Proof. apply (C01_varint_minimal [x81; x80; x00; xff] 1 [xff]). vm_compute. reflexivity. Qed.
 Example C01_ex_fixed32 : dec_fixed32 (enc_fixed32 4294967295 ++ []) = Ok (4294967295, []).
-Proof. apply C01_fixed32_roundtrip. vm_compute. reflexivity. Qed.
+Proof. apply (proj1 C01_fixed_roundtrip). vm_compute. reflexivity. Qed.
 Example C01_ex_fixed64 : dec_fixed64 (enc_fixed64 (2^63) ++ [x01]) = Ok (2^63, [x01]).
-Proof. apply C01_fixed64_roundtrip. vm_compute. reflexivity. Qed.
+Proof. apply (proj2 C01_fixed_roundtrip). vm_compute. reflexivity. Qed.
 Example C01_ex_zigzag : zz_enc (-9223372036854775808) = 18446744073709551615 /\ zz_dec 18446744073709551615 = (-9223372036854775808)%Z.
 Proof. vm_compute. split; reflexivity. Qed.
 Example C01_ex_bool : enc_bool (dec_bool 1) = 1.
-Proof. apply C01_bool_bijective_01. vm_compute. reflexivity. Qed.
+Proof. apply (proj2 C01_bool_bijective). vm_compute. reflexivity. Qed.
 Example C01_ex_tag : dec_tag (enc_tag 2147483647 7 ++ []) = Ok (2147483647, 7, []).
 Proof. apply C01_tag_roundtrip; [split|]; vm_compute; congruence. Qed.
 Example C01_ex_bytes : dec_bytes (enc_bytes [x61; x62] ++ [x63]) = Ok ([x61; x62], [x63]).
@@ -248,6 +206,6 @@ Proof.
   - cbn. auto.
 Qed.
 Example C01_ex_go_varint : go_AppendVarint (zbytes [x00]) (Z.of_N 300) = [0; 172; 2]%Z.
-Proof. rewrite C01_go_AppendVarint by (vm_compute; reflexivity). vm_compute. reflexivity. Qed.
+Proof. rewrite (proj1 C01_go_Varint) by (vm_compute; reflexivity). vm_compute. reflexivity. Qed.
 Example C01_ex_go_consume : go_ConsumeVarint [172; 2; 99]%Z = Val (300, 2)%Z.
-Proof. apply (C01_go_ConsumeVarint [xac; x02; x63]). Qed.
+Proof. apply (proj1 (proj2 C01_go_Varint) [xac; x02; x63]). Qed.
